@@ -4,6 +4,7 @@
    here are the mechanisms the property rests on, for every input. *)
 From Coq Require Import List NArith Bool.
 From Verif Require Import Base.Res Base.Text Gen.GenTokens Model.Lexer Model.ExprParser Proofs.LexerTile Proofs.RespellProofs Proofs.ExprParserProofs Proofs.ExprInstance.
+From Verif Require Model.StParser Model.StInstance Proofs.StExprProofs Proofs.StStmtProofs Proofs.StInstanceProofs.
 Import ListNotations.
 
 (* every token of token.rs whose spelling contains a letter is matched case-insensitively (table regenerated each run) *)
@@ -39,3 +40,26 @@ Theorem C08_expression_respelling : forall (s1 s2 : sp token binop unop leaf) q 
     exists r1 r2, parse_expr f q (flat token binop unop leaf s1 ++ rest1) = Ok (erase token binop unop leaf s1, r1)
                /\ parse_expr f q (flat token binop unop leaf s2 ++ rest2) = Ok (erase token binop unop leaf s1, r2).
 Proof. intros s1 s2 q rest1 rest2. unfold parse_expr. apply respelling_invariant. Qed.
+
+(* statements: two spellings of the same statement list (letter case of keywords and identifiers is below the token
+   classes; trivia, redundant parentheses, '+' signs are what the erasure forgets) are read as the same list *)
+Theorem C08_statement_respelling :
+  forall w00 fb w0 nm w1 (l : StStmtProofs.sl token) w2 en w3 w00' fb' w0' nm' w1' (l' : StStmtProofs.sl token) w2' en' w3',
+  StExprProofs.all_triv token StInstance.tok_class w00 -> t_kind fb = KFunctionBlock ->
+  StExprProofs.all_triv token StInstance.tok_class w0 -> t_kind nm = KIdentifier ->
+  StExprProofs.all_triv token StInstance.tok_class w1 ->
+  StStmtProofs.wf_l token StInstance.tok_class StInstance.op_level l ->
+  StExprProofs.all_triv token StInstance.tok_class w2 -> t_kind en = KEndFunctionBlock ->
+  StExprProofs.all_triv token StInstance.tok_class w3 ->
+  StParser.in_scope token StInstance.tok_class (StStmtProofs.flat_l token l ++ w2 ++ en :: w3) = true ->
+  StExprProofs.all_triv token StInstance.tok_class w00' -> t_kind fb' = KFunctionBlock ->
+  StExprProofs.all_triv token StInstance.tok_class w0' -> t_kind nm' = KIdentifier ->
+  StExprProofs.all_triv token StInstance.tok_class w1' ->
+  StStmtProofs.wf_l token StInstance.tok_class StInstance.op_level l' ->
+  StExprProofs.all_triv token StInstance.tok_class w2' -> t_kind en' = KEndFunctionBlock ->
+  StExprProofs.all_triv token StInstance.tok_class w3' ->
+  StParser.in_scope token StInstance.tok_class (StStmtProofs.flat_l token l' ++ w2' ++ en' :: w3') = true ->
+  StStmtProofs.erase_l token t_text StInstance.tok_num l = StStmtProofs.erase_l token t_text StInstance.tok_num l' ->
+  StInstance.parse_fb_tokens (w00 ++ fb :: w0 ++ nm :: w1 ++ StStmtProofs.flat_l token l ++ w2 ++ en :: w3) =
+  StInstance.parse_fb_tokens (w00' ++ fb' :: w0' ++ nm' :: w1' ++ StStmtProofs.flat_l token l' ++ w2' ++ en' :: w3').
+Proof. exact StInstanceProofs.parse_fb_respelled. Qed.
